@@ -267,7 +267,8 @@ def id_spellings(cred_id):
     out = {"padded-1": good + "=", "padded-2": good + "==", "char-appended": good + "A", "truncated": good[:-1], "case-changed": good.lower() if good.lower() != good else good + "x",
            "of-longer-raw-id": authsim.b64u(cred_id + b"\x00"), "newline-appended": good + "\n", "dot-inserted": good[:2] + "." + good[2:], "space-prefixed": " " + good,
            "standard-alphabet": good.replace("-", "+").replace("_", "/"), "empty": "",
-           "non-ascii-appended": good + "\u00e9", "zero-width-space-inside": good[:1] + "\u200b" + good[1:], "lone-surrogate-appended": good + "\ud800", "nul-appended": good + "\x00"}
+           "non-ascii-appended": good + "\u00e9", "zero-width-space-inside": good[:1] + "\u200b" + good[1:], "lone-surrogate-appended": good + "\ud800", "nul-appended": good + "\x00",
+           "no-break-space-appended": good + "\u00a0", "line-separator-prefixed": "\u2028" + good, "ideographic-space-appended": good + "\u3000", "next-line-appended": good + "\u0085"}
     if len(cred_id) % 3:
         out["last-char-spare-bits"] = good[:-1] + ALPHA64[ALPHA64.index(good[-1]) ^ 1]
     return {k: v for k, v in out.items() if v != good}
@@ -329,6 +330,7 @@ FAULTS = {
     "cdj-edited-after-signing": f_cdj_edited, "authdata-trailing-byte": f_ad_trailing, "signature-truncated": f_sig_trunc,
     "id-not-b64-rawid:padded-1": id_fault("padded-1"), "id-not-b64-rawid:padded-2": id_fault("padded-2"), "id-not-b64-rawid:last-char-spare-bits": id_fault("last-char-spare-bits"),
     "id-not-b64-rawid:newline-appended": id_fault("newline-appended"), "id-not-b64-rawid:dot-inserted": id_fault("dot-inserted"), "id-not-b64-rawid:standard-alphabet": id_fault("standard-alphabet"),
+    "id-not-b64-rawid:no-break-space-appended": id_fault("no-break-space-appended"), "id-not-b64-rawid:line-separator-prefixed": id_fault("line-separator-prefixed"),
     "id-not-b64-rawid:non-ascii-appended": id_fault("non-ascii-appended"), "id-not-b64-rawid:zero-width-space-inside": id_fault("zero-width-space-inside"), "id-not-b64-rawid:nul-appended": id_fault("nul-appended"),
     "id-not-b64-rawid:char-appended": id_fault("char-appended"), "id-not-b64-rawid:truncated": id_fault("truncated"), "id-not-b64-rawid:empty": id_fault("empty"),
     "credential-type": f_cred_type, "challenge-base64url-alias": f_challenge_b64_alias, "origin-alias-spelling": f_origin_alias, "client-data-affix-not-signed": f_cd_unsigned_affix, "signed-over-another-arrangement-of-the-same-data": f_sign_other_base, "rp-id-hash-of-another-ceremony-string": f_rp_hash_of_other_string, "client-data-is-a-json-string-wrapping-the-object": f_cd_wrapped_as_string, "client-data-malformed-affix-not-signed": f_cd_unsigned_affix_malformed, "origin-expected-read-as-pattern": f_origin_pattern, "declared-algorithm-of-another-family": f_declared_alg_foreign,
